@@ -7,6 +7,7 @@ import (
 	"reflect"
 	"sort"
 	"strings"
+	"time"
 
 	"verif.local/verif/simlib/plan"
 	"verif.local/verifsim"
@@ -143,15 +144,28 @@ func GenC14Case(seed uint64, idx int) C14Case {
 }
 
 type orderRun struct {
-	Out       Outcome
-	Decisions []verifsim.Decision
-	N         int
-	Steps     int
+	Out        Outcome
+	Decisions  []verifsim.Decision
+	N          int
+	Steps      int
+	ClockReads int
+	RandDraws  int
+}
+
+// envFault is what the environment of one call does besides map order: the
+// seed of the pseudo-random stream and jumps of the simulated clock.
+type envFault struct {
+	RandSeed   uint64               `json:"rand_seed,omitempty"`
+	ClockJumps []verifsim.ClockJump `json:"clock_jumps,omitempty"`
 }
 
 // runOrder executes the case's operation once under the given order tape.
 func runOrder(obj *Object, datum interface{}, op string, tape []uint64) orderRun {
-	ctx := &verifsim.OpCtx{Obj: 0, Tape: tape}
+	return runOrderEnv(obj, datum, op, tape, envFault{})
+}
+
+func runOrderEnv(obj *Object, datum interface{}, op string, tape []uint64, env envFault) orderRun {
+	ctx := &verifsim.OpCtx{Obj: 0, Tape: tape, RandSeed: env.RandSeed, ClockJumps: env.ClockJumps}
 	verifsim.BeginOp(ctx)
 	var out Outcome
 	if op == "exec" {
@@ -160,7 +174,7 @@ func runOrder(obj *Object, datum interface{}, op string, tape []uint64) orderRun
 		out = obj.Evaluate(datum)
 	}
 	verifsim.EndOp()
-	return orderRun{Out: out, Decisions: ctx.Decisions, N: ctx.NDecisions, Steps: ctx.Steps}
+	return orderRun{Out: out, Decisions: ctx.Decisions, N: ctx.NDecisions, Steps: ctx.Steps, ClockReads: ctx.ClockReads, RandDraws: ctx.RandDraws}
 }
 
 // caseRunner executes the case's operation under an order tape. Without a
@@ -189,6 +203,16 @@ func (cr *caseRunner) run(tape []uint64) orderRun {
 	return runOrder(obj, cr.datum, cr.c.Op, tape)
 }
 
+// runEnv is run with an environment fault; it always uses a fresh object (plus
+// prelude) so that the call is the object's first one.
+func (cr *caseRunner) runEnv(env envFault) orderRun {
+	obj := NewObject(cr.c.Obj)
+	if cr.c.Prelude != nil {
+		runOrder(obj, Build(*cr.c.Prelude), cr.c.Op, nil)
+	}
+	return runOrderEnv(obj, cr.datum, cr.c.Op, nil, env)
+}
+
 // history returns the tapes that ran on the shared object before the last one.
 func (cr *caseRunner) history() [][]uint64 {
 	if len(cr.hist) < 2 {
@@ -208,6 +232,7 @@ type C14Result struct {
 	Nontrivial bool     `json:"nontrivial"`
 	Base       string   `json:"canonical_outcome"`
 	PathSens   bool     `json:"order_changed_statement_count"`
+	EnvRuns    int      `json:"environment_fault_runs"`
 	Violation  *C14Diff `json:"violation,omitempty"`
 }
 
@@ -218,9 +243,12 @@ type C14Diff struct {
 	// History: the order tapes executed on the same object between tape_a (the
 	// first call) and tape_b (the differing call); the replay repeats them
 	History [][]uint64 `json:"history,omitempty"`
-	OutA    Outcome    `json:"outcome_a"`
-	OutB    Outcome    `json:"outcome_b"`
-	Probe   string     `json:"probe,omitempty"`
+	// Env: the environment fault (random seed, clock jumps) of the differing call;
+	// the first call then is a fresh object's call without any fault
+	Env   *envFault `json:"env,omitempty"`
+	OutA  Outcome   `json:"outcome_a"`
+	OutB  Outcome   `json:"outcome_b"`
+	Probe string    `json:"probe,omitempty"`
 }
 
 // findMapPath locates the map with identity ptr inside root and returns the
@@ -377,13 +405,18 @@ func RunC14Case(c C14Case, seed uint64, tier string) C14Result {
 	for _, d := range base.Decisions {
 		res.Arities = append(res.Arities, d.N)
 	}
-	if base.N == 0 || base.Out.Skip {
+	if base.Out.Skip {
+		return res
+	}
+	if base.N == 0 && base.ClockReads == 0 && base.RandDraws == 0 {
 		return res
 	}
 	// (measured on an object of its own: the explored object's history must
 	// consist of the explored orders only, or the replay could not repeat it)
-	res.Classes = measureClasses(c, NewObject(c.Obj), datum, base.Decisions[0])
-	res.Nontrivial = classesNontrivial(res.Classes)
+	if base.N > 0 {
+		res.Classes = measureClasses(c, NewObject(c.Obj), datum, base.Decisions[0])
+		res.Nontrivial = classesNontrivial(res.Classes)
+	}
 
 	r := plan.New(plan.Mix(seed, c.hash()))
 	try := func(tape []uint64) bool {
@@ -432,6 +465,27 @@ func RunC14Case(c C14Case, seed uint64, tier string) C14Result {
 		}
 		if !try(t) {
 			return res
+		}
+	}
+	// the library read the clock or drew random numbers: the outcome must not
+	// depend on what it got (other seeds; clock jumps forwards and backwards at
+	// seeded points of the call)
+	if base.ClockReads > 0 || base.RandDraws > 0 {
+		ref := cr.runEnv(envFault{})
+		res.EnvRuns++
+		deltas := []time.Duration{5 * time.Millisecond, 80 * time.Millisecond, 2 * time.Second, time.Hour, -time.Second, 400 * 24 * time.Hour}
+		for i := 0; i < 14; i++ {
+			env := envFault{RandSeed: 1 + r.Uint64()%1000000}
+			if base.ClockReads > 0 && i%2 == 0 {
+				env.ClockJumps = []verifsim.ClockJump{{At: 1 + r.Intn(ref.Steps+1), Delta: deltas[r.Intn(len(deltas))]}}
+			}
+			run := cr.runEnv(env)
+			res.EnvRuns++
+			if !sameC14(run.Out, ref.Out) {
+				e := env
+				res.Violation = &C14Diff{TapeA: []uint64{}, TapeB: []uint64{}, OutA: ref.Out, OutB: run.Out, Env: &e}
+				return res
+			}
 		}
 	}
 	// exhaustive depth-first enumeration of the decision tree when it is small
@@ -546,6 +600,7 @@ type c14Summary struct {
 	Violations int            `json:"violations"`
 	ClassMixes map[string]int `json:"class_mix_histogram"`
 	Sentinels  []c14Sentinel  `json:"sentinels"`
+	EnvRuns    int            `json:"environment_fault_runs"`
 }
 
 // c14Sentinel: the same seeded cases are run by every worker process; their
@@ -592,6 +647,7 @@ func workerC14(cfg WorkerCfg) int {
 		sum.Orders += res.Orders
 		sum.ByFamily[c.Family]++
 		sum.Decisions += res.Decisions * res.Orders
+		sum.EnvRuns += res.EnvRuns
 		if res.Decisions > 0 {
 			sum.WithDec++
 		}
@@ -615,9 +671,15 @@ func workerC14(cfg WorkerCfg) int {
 		if res.Violation != nil {
 			min, diff := MinimizeC14(c, cfg.Seed, cfg.Tier)
 			sum.Violations++
-			cfg.Emit(Violation{Type: "violation", Property: "C14", Engine: "ordersim", Kind: "order-dependent",
-				Key:    fmt.Sprintf("C14/order/%s/%s", min.Op, min.Family),
-				Detail: fmt.Sprintf("%s %q on datum %s: canonical order gives %s, order tape %v gives %s", min.Op, min.Obj.Expr, min.Datum.String(), diff.OutA, diff.TapeB, diff.OutB),
+			kind, key := "order-dependent", fmt.Sprintf("C14/order/%s/%s", min.Op, min.Family)
+			detail := fmt.Sprintf("%s %q on datum %s: canonical order gives %s, order tape %v gives %s", min.Op, min.Obj.Expr, min.Datum.String(), diff.OutA, diff.TapeB, diff.OutB)
+			if diff.Env != nil {
+				kind, key = "environment-dependent", fmt.Sprintf("C14/environment/%s/%s", min.Op, min.Family)
+				detail = fmt.Sprintf("%s %q on datum %s: a fresh object's call gives %s; the same call with random seed %d and clock jumps %v gives %s", min.Op, min.Obj.Expr, min.Datum.String(), diff.OutA, diff.Env.RandSeed, diff.Env.ClockJumps, diff.OutB)
+			}
+			cfg.Emit(Violation{Type: "violation", Property: "C14", Engine: "ordersim", Kind: kind,
+				Key:    key,
+				Detail: detail,
 				Seed:   cfg.Seed, Index: idx,
 				Replay: mustJSON(map[string]interface{}{"engine": "ordersim", "property": "C14", "build": "plain", "seed": cfg.Seed, "case": min, "diff": diff, "datum_canon": clip(Canon(Build(min.Datum), false), 2000)})})
 		}
@@ -697,6 +759,13 @@ func replayC14(cfg WorkerCfg) int {
 	verifsim.Reset()
 	verifsim.BeginMain()
 	verifsim.SetOrderSeam(true)
+	if doc.Diff != nil && doc.Diff.Env != nil {
+		cr := newCaseRunner(doc.Case)
+		a := cr.runEnv(envFault{})
+		bb := cr.runEnv(*doc.Diff.Env)
+		cfg.Emit(map[string]interface{}{"type": "replay", "reproduced": !sameC14(a.Out, bb.Out), "outcome_a": a.Out, "outcome_b": bb.Out, "clock_reads": bb.ClockReads, "rand_draws": bb.RandDraws})
+		return 0
+	}
 	cr := newCaseRunner(doc.Case)
 	a := cr.run(doc.Diff.TapeA)
 	for _, h := range doc.Diff.History {
